@@ -416,7 +416,7 @@ func (e *H2End) handle(f http2.Frame) {
 				st.recvWin += n
 			}
 		}
-		if !st.ended && st.dataSeen > 40 && n < 256 && st.recvWin < 1<<20 {
+		if !st.ended && st.dataSeen > 40 && n < 256 && st.recvWin < 1<<20 && st.recvWin+e.pendingInitDelta()+1<<20 <= 1<<31-1 && st.recvWin+e.pendingInitDelta() < 1<<20 {
 			// enough of dripping on this stream: open the windows so that the run stays affordable
 			_ = e.fr.WriteWindowUpdate(st.id, 1<<20)
 			st.recvWin += 1 << 20
@@ -512,6 +512,20 @@ func (e *H2End) Credit() (granted bool) {
 	}
 	e.flush()
 	return
+}
+
+// pendingInitDelta: what our not yet acknowledged SETTINGS_INITIAL_WINDOW_SIZE values will add to every open
+// stream's window once MOSN applies them (it may have done so already: a grant must leave room for it).
+func (e *H2End) pendingInitDelta() int64 {
+	var d int64
+	eff := e.effInitWin
+	for _, p := range e.pending {
+		if p.initWin >= 0 {
+			d += p.initWin - eff
+			eff = p.initWin
+		}
+	}
+	return d
 }
 
 // OpenStreams: streams on which MOSN may still have DATA to send to us.
@@ -696,9 +710,12 @@ func (e *H2End) ChangeInitWindow(v uint32) {
 	e.O.InitWin = v
 	if e.S.Ch.Chance("seg", "h2dupwin", 1, 4) {
 		// the same parameter twice in one frame (RFC 7540 6.5.3: processed in order, the last value stands);
-		// the first value lies between 0 and the larger of the old and the new one
+		// the first value lies between 0 and the smaller of the old and the new one
+		// (the first value is at most the smaller of the old and the new one: a first value above both could
+		// push a stream window that grants have already raised beyond 2^31-1 for an instant, which the receiver
+		// rightly treats as a flow-control error)
 		hi := prev
-		if v > hi {
+		if v < hi {
 			hi = v
 		}
 		v1 := []uint32{0, hi / 2, hi}[e.S.Ch.Pick("seg", "h2dupwinv", 3)]
